@@ -60,22 +60,19 @@ def purges_keep_other_commands(ctx, P, pre):
                     n += 1
                     k += 1
                     bad = []
+                    from .f9 import retain_predicate_facts
                     bodies = _predicate_bodies(P, cf)
                     if not bodies:
                         ws = _ret_writers(cf, cf.live_blocks())
                         if any(w[0] != "const" or not w[1] for w in ws):
                             bad.append("the predicate can answer false without looking at the kind of command")
                     for g in bodies:
-                        for (sb, es) in _command_switches(P, g):
-                            for (tgt, outcome) in es:
-                                if len(outcome) == 1 and "<other>" not in outcome:
-                                    continue
-                                ws = _ret_writers(g, g.reachable(tgt, removed_blocks=[sb]))
-                                drop = [w for w in ws if w[0] != "const" or not w[1]]
-                                if drop:
-                                    others = sorted(outcome)
-                                    bad.append("commands of %d other kinds (%s, ..) can be dropped: the predicate answers %s for them at %s" % (
-                                        len(others), ", ".join(others[:3]), "false" if drop[0][0] == "const" else "a computed value", g.loc(drop[0][2])))
+                        r = retain_predicate_facts(P, g, None)
+                        if r is None:
+                            bad.append("the predicate is too large to enumerate its paths")
+                        elif not r[0]:
+                            bad.append("commands of another kind than the purged one can be dropped: some path that does not match the purged "
+                                       "variant answers something else than the constant true")
                     ctx.ob(pre + ".purge-keeps-other-commands", "%s|retransmissions.retain#%d" % (f.name, k), not bad, f.loc(b),
                            "the purge answers `true` for every command of another kind" if not bad else "; ".join(sorted(set(bad)))[:400])
     ctx.floor(pre + ".purge-keeps-other-commands", n, 3, "retain calls on the rerun queue")
@@ -286,7 +283,8 @@ def sweeps_drop_empty_entries(ctx, P, pre, maps=CACHE_MAPS):
             if "HashMap" in n and method(n) == "retain":
                 tr = tr or tracer(P, f)
                 for m in maps:
-                    if not recv_is_field(P, f, b, t, m, "DnsCache"):
+                    # the map itself, or one of several maps swept by the same statement (`for table in [&mut self.srv, ..]`)
+                    if not recv_mentions(P, f, b, t, m, "DnsCache"):
                         continue
                     for a in t["args"][1:]:
                         for cl in _top_closures(P, tr.operand(a, endpos(f, b))):
